@@ -7,7 +7,8 @@ into a real MoleculeLibrary / ConformerLibrary inside a writing() session and re
 (c) a second library that received what was read back (record-by-record copy), (d) a fresh process;
 deep snapshots are compared field by field.  Source objects are also modified and stored again under
 new keys, libraries of the other format version are used before / alternately, and library files are
-re-created in the other format under the same path.
+re-created in the other format under the same path, or generated again in the same format under the same keys while
+older handles are alive.  Keys are also read inside the writing session that stored them.
 """
 from __future__ import annotations
 
@@ -24,7 +25,12 @@ RULE = ("seeded random molecules (0..40 atoms, all 119 elements, every enum memb
         "blocks) and ensembles (0..6 conformers, 4 constructor routes) written to v2 and legacy v1 libraries with buffer "
         "sizes {-1,0,4096,1e6} under plain / white-space / empty keys; objects are stored once, or modified and stored "
         "again (same session, later session, second library); what is read back is stored into a second library and read "
-        "again; non-trivial = at least one atom and one non-default field; distinct by snapshot hash")
+        "again; non-trivial = at least one atom and one non-default field; distinct by snapshot hash. Second extension: "
+        "every field at its falsy-but-not-default value (f_order 0.0, isotope 0, '' labels, Unknown types, zero weights), "
+        "parallel bonds in both orientations and self-bonds, text / keys that unicode normalisation would change, reads "
+        "inside the writing session (equal to the snapshot at store time, nothing shared with the source object, editable), "
+        "edits of the atom / bond attribute mappings of read-back objects before other keys are read, the file generated "
+        "again in the same format under the same keys while older handles live, ensembles above 1 MiB (thorough tier)")
 ASSUMPTIONS = [
     "floats (coordinates, partial charges, weights, f_order, float attributes) are compared at single-float precision "
     "(|a-b| <= 1.2e-7*max(|a|,|b|) + 1e-38, NaN=NaN, inf=inf) because the format stores single floats",
@@ -34,7 +40,7 @@ ASSUMPTIONS = [
     "arrays: a read-back object can be edited like the stored one",
     "storing under a key that already exists is refused by the storage layer and is not part of the workload",
 ]
-REQUIRED = {"roundtrip.v2.mol": 50, "roundtrip.v2.ens": 20, "roundtrip.v1.mol": 10, "roundtrip.v1.ens": 10,
+_REQUIRED = {"roundtrip.v2.mol": 50, "roundtrip.v2.ens": 20, "roundtrip.v1.mol": 10, "roundtrip.v1.ens": 10,
             "read.fresh-handle": 50, "source-unchanged": 50, "read.again-after-editing-previous-result": 50,
             "source.atoms-lent-to-another-structure": 20, "source.large-text-attribute": 10,
             "library.created-over-a-legacy-file": 3, "library.other-format-version-used-earlier-in-process": 3,
@@ -49,7 +55,24 @@ REQUIRED = {"roundtrip.v2.mol": 50, "roundtrip.v2.ens": 20, "roundtrip.v1.mol": 
             "read.array-kind-compared": 500,
             "library.other-format-version-constructed-later-used-alternately": 3,
             "library.path-re-created-in-other-format.v1-to-v2": 2, "library.path-re-created-in-other-format.v2-to-v1": 2,
-            "library.old-handle-used-after-re-creation": 4, "read.fresh-process": 20}
+            "library.old-handle-used-after-re-creation": 4, "read.fresh-process": 20,
+            # --- added after the second gap review
+            "edit.atom-and-bond-attribute-mappings-of-a-read-back-object": 300,
+            "read.other-key-after-editing-previous-result": 300,
+            "source.field-falsy-but-not-default": 150, "source.fractional-bond-order-zero": 60,
+            "source.parallel-bonds": 40, "source.self-bond": 25,
+            "source.text-not-in-composed-unicode-form": 150, "key.not-in-composed-unicode-form": 60,
+            "read.inside-writing-session": 300, "read.inside-writing-session.stored-again-object": 30,
+            "read.inside-writing-session.result-edited": 100,
+            "library.path-generated-again-in-same-format.v1": 2, "library.path-generated-again-in-same-format.v2": 2,
+            "read.old-handle-after-same-format-regeneration": 30}
+_REQUIRED_THOROUGH = {"source.numeric-block-above-1MiB": 2}
+
+
+def REQUIRED(tier):
+    return {**_REQUIRED, **(_REQUIRED_THOROUGH if tier == "thorough" else {})}
+
+
 CHUNK_TIMEOUT = 900
 
 # Mechanisms that are silenced inside the module: none.  What the unchanged library is known to get wrong is listed in
@@ -59,6 +82,11 @@ KNOWN_ON_UNCHANGED_TREE = set()
 RTOL, ATOL = 1.2e-7, 1e-38
 V1_ATOM = ("element", "isotope", "label", "atype", "stereo", "geom")
 V1_BOND = ("a1", "a2", "label", "btype", "stereo", "f_order")
+# text that unicode normalisation (NFC / NFD / NFKC / NFKD) would change: decomposed letters (what macOS hands out for file
+# names), compatibility characters (ligature, superscript, Angstrom / Kelvin / Ohm signs, half-width, full-width), a
+# sequence in non-canonical mark order
+UNI_TEXT = ["Gru\u0308bbs-e\u0301", "u\u0308", "e\u0301", "\ufb01t", "x\u00b2", "\u212b", "\u212a\u2126", "\uff76\uff9e",
+            "\uff21\uff11", "a\u0323\u0307", "a\u0307\u0323", "\u1e9b\u0323", "\u00e9 and e\u0301", "\u2460"]
 WS_TEXT = [" lead", "trail ", " both ", "tab\t", "\tlead-tab", "line\n", "\nline", " ", "\n", "", "in  ner",
            " nbsp ", "cr\r\n", "  two  "]
 GARBAGE = "~garbage~"
@@ -82,6 +110,20 @@ def plan(tier, seed):
                 specs.append({"chunk": 10000 + k, "scenario": "re-created-path", "kind": kind, "direction": direction,
                               "bufsize": [-1, 0, 4096, 10**6][k % 4]})
                 k += 1
+    # self-contained scenario: the file is generated AGAIN in the same format under the same keys with other content (the
+    # generating script is run again) while handles constructed earlier are alive
+    k = 0
+    for rep in range(1 if tier == "quick" else 4):
+        for kind in ("mol", "ens"):
+            for version in (2, 1):
+                specs.append({"chunk": 20000 + k, "scenario": "generated-again-same-format", "kind": kind,
+                              "version": version, "bufsize": [-1, 0, 4096, 10**6][(k + k // 4) % 4]})
+                k += 1
+    if tier == "thorough":
+        # ensembles whose coordinate block exceeds 1 MiB (ordinary for conformer searches: 400 conformers x 250 atoms)
+        for i, spec in enumerate(s for s in specs if s.get("kind") == "ens" and "scenario" not in s):
+            if i in (1, 3, 6, 8):              # v2, v1, ... (chunks 5, 11, 20, 26)
+                spec["huge"] = True
     return specs
 
 
@@ -176,10 +218,48 @@ class Oracle:
         if y.n_atoms:
             y.atoms[0].label = "EDITED"
             y.atoms[-1].formal_charge = 9
+            y.atoms[y.n_atoms // 2].isotope = 99
             y.coords[...] = 12345.0
             y.atomic_charges[...] = -9.0
         if self.kind == "ens" and y.n_conformers:
             y.weights[...] = 77.0
+        # below the top level: the attribute mappings of the atoms and bonds, mappings nested in attribute values
+        if y.n_atoms <= 300:
+            for i, a in enumerate(y.atoms):
+                a.attrib["edited-atom"] = i
+            for i, b in enumerate(y.bonds):
+                b.attrib["edited-bond"] = i
+                b.label = "EDITED-BOND"
+                b.f_order = 8.5
+            for holder in [y] + list(y.atoms) + list(y.bonds):
+                for v in list(holder.attrib.values()):
+                    if isinstance(v, dict):
+                        v["edited-nested"] = True
+                    elif isinstance(v, list):
+                        v.append("edited-nested")
+                    elif isinstance(v, self.np.ndarray) and v.flags.writeable and v.size and v.dtype.kind in "fiu":
+                        v[...] = 7
+            self.ctx.count("edit.atom-and-bond-attribute-mappings-of-a-read-back-object")
+
+    def independent(self, x, y):
+        """parts of the object y (read back) that are the very same Python objects as parts of the source x"""
+        np = self.np
+        shared = []
+        if y is x:
+            return ["object"]
+        if y.attrib is x.attrib and x.attrib is not None:
+            shared.append("attrib")
+        xa = {id(a) for a in x.atoms} | {id(a.attrib) for a in x.atoms}
+        if any(id(a) in xa or id(a.attrib) in xa for a in y.atoms):
+            shared.append("atoms")
+        xb = {id(b) for b in x.bonds} | {id(b.attrib) for b in x.bonds}
+        if any(id(b) in xb or id(b.attrib) in xb for b in y.bonds):
+            shared.append("bonds")
+        for f in ("coords", "atomic_charges", "weights"):
+            u, v = getattr(x, f, None), getattr(y, f, None)
+            if isinstance(u, np.ndarray) and isinstance(v, np.ndarray) and u.size and np.shares_memory(u, v):
+                shared.append(f)
+        return shared
 
     def match_values(self, expected, values, version, tag, route):
         """values() carries no keys: the objects it yields must be, as a multiset, the objects stored"""
@@ -248,6 +328,83 @@ def enrich(rng, x, kind, ctx, np, gen):
             if rng.random() < 0.7:
                 b.f_order = rng.choice([rng.uniform(0, 3), rng.uniform(0, 3), 4 / 3, 2 / 3, 1e-3, 0.1, 1.87654321])
         ctx.count("source.real-valued-fractional-bond-order")
+    # bond records over a pair of atoms that already has one (both orientations), a bond from an atom to itself:
+    # connect() accepts them, so they are part of the bond sequence that was stored
+    if x.n_atoms and rng.random() < 0.12:
+        def bkw():
+            return dict(label=rng.choice([None, "", "again", "sigma"]), btype=rng.choice(gen.BTYPES),
+                        stereo=rng.choice(gen.BSTEREO), f_order=rng.choice([1.0, 2.0, 0.0, 1.5]),
+                        attrib=rng.choice([{}, {"dup": 1}, {"w": [0.5, "x"]}]))
+        idx = {id(a): i for i, a in enumerate(x.atoms)}
+        if x.n_bonds and rng.random() < 0.75:
+            for b in rng.sample(list(x.bonds), rng.randrange(1, min(3, x.n_bonds) + 1)):
+                i, k = idx[id(b.a1)], idx[id(b.a2)]
+                for _ in range(rng.randrange(1, 3)):
+                    if rng.random() < 0.5:
+                        i, k = k, i
+                    x.connect(i, k, **bkw())
+            ctx.count("source.parallel-bonds")
+        if rng.random() < 0.6 or not x.n_bonds:
+            for _ in range(rng.randrange(1, 3)):
+                i = rng.randrange(x.n_atoms)
+                x.connect(i, i, **bkw())
+            ctx.count("source.self-bond")
+    # every field at the value that is falsy without being the field's default
+    if rng.random() < 0.3:
+        done = False
+        if x.n_bonds:
+            for b in rng.sample(list(x.bonds), rng.randrange(1, min(4, x.n_bonds) + 1)):
+                b.f_order = rng.choice([0.0, 0.0, -0.0])
+                if rng.random() < 0.3:
+                    b.label = ""
+                if rng.random() < 0.3:
+                    b.btype = ml_enum(gen.BTYPES, 0)
+            ctx.count("source.fractional-bond-order-zero")
+            done = True
+        if x.n_atoms:
+            for a in rng.sample(list(x.atoms), rng.randrange(1, min(4, x.n_atoms) + 1)):
+                f = rng.randrange(4)
+                if f == 0:
+                    a.isotope = 0
+                elif f == 1:
+                    a.label = ""
+                elif f == 2:
+                    a.atype = ml_enum(gen.ATYPES, 0)
+                else:
+                    a.attrib = {rng.choice(["", "z"]): rng.choice([0, 0.0, "", False, None, [], {}, b""])}
+            done = True
+        if rng.random() < 0.3:
+            x.name = ""
+            done = True
+        if rng.random() < 0.3:
+            x.mult = 0
+            done = True
+        if rng.random() < 0.3:
+            x.attrib = {rng.choice(["", "z"]): rng.choice([0, 0.0, "", False, None, [], {}, b""]), **x.attrib}
+            done = True
+        if kind == "ens" and x.n_conformers and rng.random() < 0.5:
+            x.weights = np.zeros(x.n_conformers)
+            done = True
+        if done:
+            ctx.count("source.field-falsy-but-not-default")
+    # text that a unicode normalisation would change
+    if rng.random() < 0.3:
+        x.name = rng.choice(UNI_TEXT) if rng.random() < 0.7 else x.name
+        if x.n_atoms and rng.random() < 0.6:
+            for a in rng.sample(list(x.atoms), rng.randrange(1, min(3, x.n_atoms) + 1)):
+                a.label = rng.choice(UNI_TEXT)
+                if rng.random() < 0.4:
+                    a.attrib[rng.choice(UNI_TEXT)] = rng.choice(UNI_TEXT)
+        if x.n_bonds and rng.random() < 0.5:
+            for b in rng.sample(list(x.bonds), rng.randrange(1, min(3, x.n_bonds) + 1)):
+                b.label = rng.choice(UNI_TEXT)
+                if rng.random() < 0.4:
+                    b.attrib[rng.choice(UNI_TEXT)] = [rng.choice(UNI_TEXT)]
+        if rng.random() < 0.6:
+            x.attrib[rng.choice(UNI_TEXT)] = [rng.choice(UNI_TEXT), {rng.choice(UNI_TEXT): rng.choice(UNI_TEXT)}]
+        else:
+            x.name = rng.choice(UNI_TEXT)
+        ctx.count("source.text-not-in-composed-unicode-form")
     if rng.random() < 0.3:
         what = rng.randrange(4)
         if what == 0 or not x.n_atoms:
@@ -280,6 +437,25 @@ def enrich(rng, x, kind, ctx, np, gen):
     if rng.random() < 0.08:
         x.mult = rng.choice([0, 0, 4, 5, 7])
         ctx.count("source.multiplicity-outside-1-3")
+
+
+def ml_enum(members, value):
+    """the member of an enumeration with the given integer value"""
+    return next(m for m in members if int(m) == value)
+
+
+def huge_ensemble(rng, nprng, ctx, np, gen, ml):
+    """an ensemble whose coordinate block exceeds 1 MiB (thorough tier only)"""
+    n = rng.randrange(230, 270)
+    nc = -(-(1 << 20) // (12 * n)) + rng.randrange(10, 120)
+    base = gen.molecule(rng, n_atoms=n, max_atoms=n, rich=True, p_dense=0.0)
+    x = ml.ConformerEnsemble(base, n_conformers=nc)
+    x.coords = nprng.normal(scale=5.0, size=(nc, n, 3))
+    x.atomic_charges = nprng.uniform(-1, 1, size=(nc, n))
+    x.weights = nprng.random(nc)
+    assert x.coords.size * 4 > (1 << 20)
+    ctx.count("source.numeric-block-above-1MiB")
+    return x
 
 
 def large_attribute(rng, np):
@@ -353,6 +529,8 @@ def modify_source(rng, x, kind, r, np, ml):
 def run_chunk(spec, ctx):
     if spec.get("scenario") == "re-created-path":
         return run_recreated_path(spec, ctx)
+    if spec.get("scenario") == "generated-again-same-format":
+        return run_generated_again(spec, ctx)
     return run_main(spec, ctx)
 
 
@@ -426,7 +604,9 @@ def run_main(spec, ctx):
     for j in range(spec["n"]):
         case = (chunk, j)
         rng = ctx.rng(*case)
-        if j == 0 and chunk % 8 in (1, 7):
+        if j == 0 and spec.get("huge") and kind == "ens":
+            x = huge_ensemble(rng, ctx.nprng(*case), ctx, np, gen, ml)
+        elif j == 0 and chunk % 8 in (1, 7):
             x = large_object(rng, ctx.nprng(*case), kind, ctx, np, gen, ml)
         elif kind == "mol":
             x = gen.molecule(rng, rich=True)
@@ -442,6 +622,9 @@ def run_main(spec, ctx):
         else:
             key = [f" lead {j}", f"trail {j} ", f"line {j}\n", f"\t{j}\t", f"\n {j} \r\n"][kform - 5]
             ctx.count("key.leading-or-trailing-white-space")
+        if j != 7 and rng.random() < 0.12:
+            key = rng.choice(UNI_TEXT) + f"{j}" + rng.choice(UNI_TEXT)
+            ctx.count("key.not-in-composed-unicode-form")
         # a few objects carry a large record: a long text attribute (a program log kept with the molecule), a long label
         if rng.random() < 0.04:
             x.attrib["log"] = "line of a program log\n" * rng.choice([3000, 3200, 4000])      # 66-88 kB
@@ -498,6 +681,49 @@ def run_main(spec, ctx):
         ctx.count("source.stored-again-after-modification")
         store(lib, key)
 
+    def read_in_session(key, why):
+        """`lib[key]` while the writing session is open (records still in the write buffer are readable): the result is
+        what was stored under the key at store time -- an equal object that shares nothing with the source object"""
+        case, x = objs[key]
+        try:
+            y = lib[key]
+        except Exception as e:  # noqa
+            orc.report(f"read-raises:{tag}:inside-writing-session:{type(e).__name__}:{_where(e)}", case=case,
+                       err=repr(e)[:300], why=why)
+            return
+        ctx.count("read.inside-writing-session")
+        if n_again.get(key) or "#" in key and key.rsplit("#", 1)[0] in n_again:
+            ctx.count("read.inside-writing-session.stored-again-object")
+        shared = orc.independent(x, y)
+        if shared:
+            orc.report(f"in-session-read-shares-state-with-source-object:{tag}:{shared[0]}", case=case, shared=shared,
+                       why=why)
+            return                       # (editing it would edit the source: everything later would be noise)
+        d = orc.compare(before[key], snap(y), version, tag, case, "inside-writing-session")
+        if d:
+            orc.report(f"in-session-read-differs-from-stored:{tag}:{mech_field(d[0][0])}", case=case, diff=d[:4], why=why)
+        orc.kinds_check(kinds0[key], y, tag, case, "inside-writing-session")
+        if y.n_atoms <= 100 and ctx.rng(*case, "edit-in-session", why).random() < 0.5:
+            sx = snap(x)
+            try:
+                orc.edit(y)
+            except Exception as e:  # noqa
+                orc.report(f"readback-cannot-be-edited:{tag}:{type(e).__name__}", case=case,
+                           route="inside-writing-session", err=repr(e)[:200])
+                return
+            ctx.count("read.inside-writing-session.result-edited")
+            d = diff(sx, snap(x))
+            if d:
+                orc.report(f"editing-in-session-read-alters-source:{tag}:{mech_field(d[0][0])}", case=case, diff=d[:4])
+            try:
+                d = orc.compare(before[key], snap(lib[key]), version, tag, case, "inside-writing-session")
+            except Exception as e:  # noqa
+                orc.report(f"read-raises:{tag}:inside-writing-session:second-read:{type(e).__name__}", case=case)
+                return
+            if d:
+                orc.report(f"in-session-second-read-differs-from-stored:{tag}:{mech_field(d[0][0])}", case=case,
+                           diff=d[:4])
+
     # ---- write in 1..3 sessions (+ one later session for objects that are stored again)
     nsess = 1 + chunk % 3
     first_keys = list(keys)
@@ -515,22 +741,37 @@ def run_main(spec, ctx):
                     if not selected(ctx, case):
                         continue
                     store(lib, key)
+                    srng = ctx.rng(*case, "read-in-session")
+                    if srng.random() < 0.25:
+                        read_in_session(key, "just-stored")
                     mode = again.get(key)
                     if mode in ("same", "both"):
                         store_again(key)
+                        # the source object has changed since it was stored under `key`
+                        read_in_session(key, "source-stored-again-since")
+                        if srng.random() < 0.5:
+                            read_in_session(f"{key}#{n_again[key]}", "just-stored")
                     if mode in ("later", "both"):
                         later[ctx.rng(*case, "later-session").randrange(s + 1, nsess + 1)].append(key)
+                    if srng.random() < 0.3 and ctx.only is None:
+                        # a key stored earlier: in this session (write buffer or file) or in an earlier session
+                        read_in_session(srng.choice(sorted(before)), "stored-earlier")
                 for key in later[s]:
                     store_again(key)
+                    read_in_session(key, "source-stored-again-since")
                 if other_mode == "after":
                     _ = other_lib["o-first-0"]
             finally:
                 if other_mode == "after":
                     sess.__exit__(None, None, None)
 
+    edited_keys = set()
+
     def check(key, y, route):
         case, x = objs[key]
         sx = before[key]
+        if edited_keys - {key}:
+            ctx.count("read.other-key-after-editing-previous-result")
         sy = snap(y, parents=y.n_atoms <= 200)        # (Atom.idx is linear in the number of atoms)
         par = sy.pop("parents", None)
         d = orc.compare(sx, sy, version, tag, case, route)
@@ -553,6 +794,7 @@ def run_main(spec, ctx):
             # the stored object could be edited (it was built by the same calls), what is read back must be, too
             orc.report(f"readback-cannot-be-edited:{tag}:{type(e).__name__}", case=case, route=route, err=repr(e)[:200])
             return
+        edited_keys.add(key)
         try:
             y2 = lib_[key]
         except Exception as e:  # noqa
@@ -927,6 +1169,96 @@ def run_recreated_path(spec, ctx):
         return
     verify(Lib(p), C, v_new, "old-handle-write", known("record-written-through-it-unreadable"))
     verify(first, B, v_new, "old-handle-read", known("cannot-read-new-record"))
+
+
+# ------------------------------------------------------------------------------------------------------------------
+def run_generated_again(spec, ctx):
+    """A library file is generated, read through handles that stay alive, then generated AGAIN under the same path in the
+    SAME format with the same keys and other content (the generating script / notebook cell is run again).  Every handle --
+    the ones constructed before the second generation included -- must read what is stored under each key NOW.
+    (Own violation keys: no format change is involved, unlike the re-created-path scenario.)"""
+    import numpy as np
+    import molli as ml
+    from vmon import gen
+    from vmon.snap import snap, mech_field
+
+    kind, version, chunk, bs = spec["kind"], spec["version"], spec["chunk"], spec["bufsize"]
+    name = "path-generated-again-in-same-format"
+    case = (chunk, name)
+    if not selected(ctx, case):
+        return
+    orc = Oracle(ctx, kind)
+    Lib = ml.MoleculeLibrary if kind == "mol" else ml.ConformerLibrary
+    ext = ".mlib" if kind == "mol" else ".clib"
+    p = ctx.tmp / f"run{ext}"
+    tag = f"v{version}.{kind}"
+    n_keys = 5
+    keys = [f"m{i}" for i in range(n_keys - 1)] + ["u\u0308 key "]
+
+    def generate(generation, how):
+        """a new library object creates the file anew and stores one new object under every key"""
+        if version == 2:
+            lib = Lib(p, readonly=False, overwrite=True, bufsize=bs)
+        else:
+            if how == "replaced":
+                q = ctx.tmp / f"fresh-legacy{ext}"
+                make_v1_file(q)
+                os.replace(q, p)
+            else:
+                make_v1_file(p)
+            lib = Lib(p, readonly=False, bufsize=bs)
+        snaps = {}
+        with lib.writing():
+            for i, k in enumerate(keys):
+                rng = ctx.rng(chunk, name, generation, i)
+                x = gen.molecule(rng, rich=True) if kind == "mol" else gen.ensemble(rng, rich=True)
+                enrich(rng, x, kind, ctx, np, gen)
+                x.name = f"generation-{generation}-{i}"
+                snaps[k] = snap(x)
+                lib[k] = x
+        return lib, snaps
+
+    def verify(lib, snaps, who, generation):
+        try:
+            with lib.reading():
+                listed = set(lib.keys())
+                if listed != set(snaps):
+                    orc.report(f"same-format-regeneration:{tag}:{who}:key-set-differs", case=case, generation=generation,
+                               listed=sorted(listed)[:8], stored=sorted(snaps)[:8])
+                for k, sx in snaps.items():
+                    try:
+                        y = lib[k]
+                    except Exception as e:  # noqa
+                        orc.report(f"same-format-regeneration:{tag}:{who}:read-raises:{type(e).__name__}:{_where(e)}",
+                                   case=case, generation=generation, err=repr(e)[:300])
+                        continue
+                    ctx.count(f"roundtrip.{tag}")
+                    if generation:
+                        ctx.count("read.old-handle-after-same-format-regeneration")
+                    d = orc.compare(sx, snap(y, parents=False), version, tag, case, who)
+                    if d:
+                        orc.report(f"same-format-regeneration:{tag}:{who}:reads-other-than-stored-now:{mech_field(d[0][0])}",
+                                   case=case, generation=generation, diff=d[:4])
+        except Exception as e:  # noqa
+            orc.report(f"same-format-regeneration:{tag}:{who}:session-raises:{type(e).__name__}:{_where(e)}", case=case,
+                       generation=generation, err=repr(e)[:300])
+
+    writer0, G0 = generate(0, "in-place")
+    viewer = Lib(p)                                   # read-only handle, e.g. kept in a notebook cell
+    viewer_unused = Lib(p)                            # constructed, never used before the second generation
+    verify(viewer, G0, "reader-handle", 0)
+    verify(writer0, G0, "writer-handle", 0)
+    ctx.case(case, dkey=(kind, version, chunk), nontrivial=True,
+             sample={"scenario": name, "kind": kind, "version": version, "keys": keys})
+    handles = [("old-reader-handle", viewer), ("old-unused-handle", viewer_unused), ("old-writer-handle", writer0)]
+    for generation in (1, 2):
+        writer, G = generate(generation, "in-place" if generation == 1 else "replaced")
+        ctx.count(f"library.path-generated-again-in-same-format.v{version}")
+        verify(writer, G, "new-writer-handle", 0)
+        for who, h in handles:
+            verify(h, G, who, generation)
+        verify(Lib(p), G, "later-handle", 0)
+        handles.append(("old-writer-handle", writer))
 
 
 def _where(e):
